@@ -11,7 +11,7 @@ from vmon.libutil import XTCE_NS, monitored, xtce_element
 LEVEL = "exploration"
 SHARDS = {"quick": 16, "thorough": 16}
 MUST = ["int.evaluations", "ieee16.evaluations", "ieee32.evaluations", "ieee64.evaluations", "mil1750a.evaluations",
-        "route.from_xml", "route.ctor", "legacy.spellings", "context-not-applying.cases", "same-raw-object.redecodes"]
+        "route.from_xml", "route.ctor", "route.copied_types", "route.copied_decodes", "legacy.spellings", "context-not-applying.cases", "same-raw-object.redecodes"]
 RULE = ("ParameterType.parse_value is executed on packets whose field bits are chosen by the harness; every "
         "execution is compared with an explicit model (two's complement / byte reversal / IEEE-754 "
         "sign-exponent-mantissa arithmetic / 1750A rationals) for value, Python class, raw_value and cursor "
@@ -51,6 +51,19 @@ class Types:
         if key in self.cache:
             return self.cache[key]
         from space_packet_parser.xtce import encodings, parameter_types
+        if route.endswith("+deepcopy") or route.endswith("+copy"):
+            # a copy of an encoding is an encoding (definitions are copied, e.g. one per worker): it must decode identically
+            import copy
+            base, how = route.rsplit("+", 1)
+            t0 = self.get(kind, n, enc, little, base)
+            if how == "deepcopy":
+                t = copy.deepcopy(t0)
+            else:
+                t = copy.copy(t0)
+                t.encoding = copy.copy(t0.encoding)
+            self.ctx.count("route.copied_types")
+            self.cache[key] = t
+            return t
         if route == "ctor":
             if kind == "int":
                 e = encodings.IntegerDataEncoding(n, enc, byte_order=BO[little])
@@ -73,6 +86,10 @@ class Types:
 
 def check_one(ctx, types, kind, n, enc, little, offset, fieldbits, pclass, rng, route):
     from space_packet_parser import common
+    variant = ctx.counters["evaluations"] % 5
+    if variant in (1, 3) and isinstance(types, Types):
+        route = route + ("+deepcopy" if variant == 1 else "+copy")
+        ctx.count("route.copied_decodes")
     t = types.get(kind, n, enc, little, route)
     pkt = make_packet(fieldbits, offset, rng)
     step = monitored(t.parse_value, pkt)
